@@ -395,6 +395,26 @@ func exhaustiveC12(thorough bool, emit func(C12Case) bool) {
 			}
 		}
 	}
+	// Every byte value at every position of runs of one base and of a mixed sequence, 8, 16 and 17
+	// bases long (a word-at-a-time implementation sees whole words here, and a foreign byte next
+	// to each base: 'U' after 'T', '@' after 'A', 'B' after 'C' ...).
+	for _, pat := range []string{"A", "C", "G", "T", "a", "c", "g", "t", "ACGTTGCAacgttgcaG"} {
+		for _, n := range []int{8, 16, 17} {
+			ctx := bytes.Repeat([]byte(pat), 17)[:n]
+			for pos := 0; pos < n; pos++ {
+				for b := 0; b < 256; b++ {
+					if b == int(ctx[pos]) {
+						continue
+					}
+					s := bytes.Clone(ctx)
+					s[pos] = byte(b)
+					if !emit(C12Case{Src: s, K: 3, Spare: (pos + b) % 4}) {
+						return
+					}
+				}
+			}
+		}
+	}
 	// Every two-byte string (includes every valid two-byte UTF-8 sequence), alone and embedded.
 	for a := 0; a < 256; a++ {
 		for b := 0; b < 256; b++ {
